@@ -145,7 +145,8 @@ Proof.
   - apply andb_true_iff in Ht. destruct Ht as [_ Ht]. cbn [enc].
     assert (H : tmap (fun kv : list N * gv => if get_tag e (snd kv) =? idEnd then TErr
                         else if name_too_long (fst kv) then TErr else enc e (snd kv)) m <> None).
-    { apply tmap_no_panic. intros kv Hkv. repeat destruct (_ : bool); try discriminate.
+    { apply tmap_no_panic. intros kv Hkv. destruct (get_tag e (snd kv) =? idEnd); [discriminate|].
+      destruct (name_too_long (fst kv)); [discriminate|].
       apply IH. rewrite forallb_forall in Ht. specialize (Ht kv Hkv). apply andb_true_iff in Ht. apply Ht. }
     destruct (tmap _ m) as [[|]|]; congruence.
   - cbn [enc]. now apply fields_no_panic.
@@ -179,6 +180,12 @@ Proof. intros H. unfold u32, wrapu. rewrite Z.mod_small; [lia|]. change (2 ^ Z.o
 Lemma u16_len x : x < 2 ^ 15 -> u16 (Z.of_N x) = x.
 Proof. intros H. unfold u16, wrapu. rewrite Z.mod_small; [lia|]. change (2 ^ Z.of_N 16)%Z with 65536%Z. lia. Qed.
 
+Lemma flat_map_ext_in {A B} (f g : A -> list B) l : (forall x, In x l -> f x = g x) -> flat_map f l = flat_map g l.
+Proof.
+  induction l as [|x l IH]; intros H; [reflexivity|]. cbn [flat_map]. rewrite (H x (or_introl eq_refl)). f_equal.
+  apply IH. intros y Hy. apply H. now right.
+Qed.
+
 Lemma dyn_enc_exact : forall t, wf t -> dyn_exact t = true -> dyn_enc (dyn_of t) = payload t.
 Proof.
   induction t as [v|v|v|v|b|b|l|s|eid l IH|l IH|l|l] using tag_ind'; intros W X; cbn [dyn_of dyn_enc payload tag_id];
@@ -190,16 +197,12 @@ Proof.
       inversion Hall as [|? ? [Hx _] _]. exact Hx.
     + rewrite flat_map_concat_map, map_map, <- flat_map_concat_map.
       rewrite forallb_forall in X2. rewrite Forall_forall in *.
-      clear -IH Hall X2. induction l as [|x l' IHl]; [reflexivity|]. cbn [flat_map]. f_equal.
-      * apply IH; [now left|apply (Hall x), or_introl, eq_refl|apply X2; now left].
-      * apply IHl; intros; [apply IH|apply Hall|apply X2]; now right.
+      apply flat_map_ext_in. intros x Hx. apply IH; auto. apply (Hall x Hx).
   - apply wf_compound in W. cbn [dyn_exact] in X. rewrite forallb_forall in X. rewrite Forall_forall in *.
     f_equal. rewrite flat_map_concat_map, map_map, <- flat_map_concat_map.
-    clear -IH W X. induction l as [|kv l' IHl]; [reflexivity|]. cbn [flat_map fst snd].
-    destruct (W kv (or_introl eq_refl)) as [Hk Wv]. apply name_ok_spec in Hk. destruct Hk as [_ Hk].
-    rewrite dyn_tag_of, u16_len by exact Hk. rewrite (IH kv (or_introl eq_refl) Wv (X kv (or_introl eq_refl))).
-    rewrite <- !app_assoc. cbn [app]. do 4 f_equal.
-    apply IHl; intros; [apply IH|apply W|apply X]; now right.
+    apply flat_map_ext_in. intros kv Hkv. cbn [fst snd].
+    destruct (W kv Hkv) as [Hk Wv]. apply name_ok_spec in Hk. destruct Hk as [_ Hk].
+    rewrite dyn_tag_of, u16_len by exact Hk. rewrite (IH kv Hkv Wv (X kv Hkv)). reflexivity.
 Qed.
 
 Lemma dyn_exact_doc f name t : wf t -> dyn_exact t = true -> dyn_reencode f name (dyn_of t) = doc f name t.
